@@ -21,7 +21,7 @@ LEVEL_TEXT = ("exhaustive on the small spaces named by the property, generated h
 LEVEL_NOTE = "trusts the reference closure and the 30-line model of the three operations"
 RULE = ("cases: (enumerated) DAG x operation x arguments; (generated) DAG on <= 12 nodes with "
         "hash keys and insertion order + program of bypass_and_remove / keep_only / "
-        "keep_only_between operations with generated arguments. non-trivial: a bypass target "
+        "keep_only_between operations with generated arguments passed as list / tuple / set / generator / iterator / omitted. non-trivial: a bypass target "
         "with >= 1 upstream and >= 1 downstream job, or a kept set that cuts a path (some "
         "dropped job lies between two kept ones); distinct = distinct case digest")
 ASSUMPTIONS = STRUCT_ASSUMPTIONS
